@@ -31,6 +31,8 @@ structure Embeds (ρ τ : Nat → Nat) (T T' : Table) : Prop where
   types : ∀ t, T'.types[ρ t]? = (T.types[t]?).map (Ty.rename ρ τ)
   tuples : ∀ i, T'.tuples[τ i]? = (T.tuples[i]?).map (TupleInfo.rename ρ)
 
+def Stk.map (ρ : Nat → Nat) (s : Stk) : Stk := ⟨s.l.map ρ, s.r.map ρ⟩
+
 def mapAsm (ρ : Nat → Nat) (s : Asm) : Asm := s.map (fun p => (ρ p.1, ρ p.2))
 
 def mapRes (ρ : Nat → Nat) (r : Res) : Res := r.map (fun p => (p.1, mapAsm ρ p.2))
